@@ -3,6 +3,10 @@
 -/
 import Rsactor.Inv.End
 import Rsactor.Inv.Rej
+import Rsactor.Ties.reply_wait_shape
+import Rsactor.Ties.send_paths_shape
+import Rsactor.Ties.handle_message_shape
+import Rsactor.Ties.lifecycle_arms
 
 namespace Rsactor.Props.C03
 open Rsactor Rsactor.Model Rsactor.Monitor
@@ -120,5 +124,12 @@ example : ∃ s, run? (init 1 {})
     [.gate, .startDone, .issue 0 { kind := .ask }, .issue 0 { kind := .kill }, .pollTerm, .gate, .stopDone,
      .push 0, .recvReply 0] = some s ∧ s.client 0 = .done .receive ∧ s.stranded = [.env 0 .ask] := by
   refine ⟨_, rfl, ?_, ?_⟩ <;> decide
+
+
+/-! ### ties to the source: shape lemmas about the tables regenerated from /repo on every run -/
+-- @tie Rsactor.Ties.reply_wait_shape
+-- @tie Rsactor.Ties.send_paths_shape
+-- @tie Rsactor.Ties.handle_message_shape
+-- @tie Rsactor.Ties.lifecycle_arms
 
 end Rsactor.Props.C03
